@@ -50,6 +50,8 @@ pub mod rust_decimal {
             d <= 0real ==> round_cent(d) <= 0real,
     { admit(); }
     pub uninterp spec fn spec_is_integer(d: real) -> bool;
+    /// the value of `Decimal::MAX` (exec consts cannot be named in specifications)
+    pub uninterp spec fn spec_dec_max() -> real;
 
     impl Decimal {
         #[verifier::external_body]
@@ -79,7 +81,7 @@ pub mod rust_decimal {
         #[verifier::external_body]
         pub exec const NEGATIVE_ONE: Decimal ensures Self::NEGATIVE_ONE@ == -1real { Decimal { v: -1 } }
         #[verifier::external_body]
-        pub exec const MAX: Decimal ensures Self::MAX@ >= 79228162514264337593543950335real { Decimal { v: 0 } }
+        pub exec const MAX: Decimal ensures Self::MAX@ >= 79228162514264337593543950335real, Self::MAX@ == spec_dec_max() { Decimal { v: 0 } }
         #[verifier::external_body]
         pub fn new(num: i64, scale: u32) -> (r: Decimal) ensures r@ * pow10(scale as nat) == num as real { unimplemented!() }
         #[verifier::external_body]
